@@ -4,7 +4,7 @@ R07a hash-order taint (E3); R07b nondeterministic primitives (who-may-call + rea
 """
 import ast
 
-from ..astx import dotted, self_attr, walk_no_nested, parent, call_name, func_params
+from ..astx import dotted, self_attr, walk_no_nested, parent, call_name, func_params, kwarg
 from ..callgraph import CallGraph, diff_entries
 from ..core import norm
 
@@ -596,6 +596,19 @@ def r07g(ctx):
                             isinstance(a, ast.Assign) and isinstance(a.targets[0], ast.Name) and a.targets[0].id == t.id
                             and isinstance(a.value, ast.Constant) and a.value.value is True for a in walk_no_nested(f.node)):
                         guard = t.id
+            # the wrapper it installs must not strip: printers created afterwards bind sys.stdout, i.e. the wrapper
+            if name == "colorama.init":
+                strip = kwarg(c, "strip")
+                wrap = kwarg(c, "wrap")
+                keeps = (isinstance(strip, ast.Constant) and strip.value is False) or (isinstance(wrap, ast.Constant) and wrap.value is False)
+                if keeps:
+                    ctx.proved("R07g", f.file, f.short, c, f"{name} keeps escapes", "the installed wrapper is told not to strip ANSI escapes")
+                else:
+                    ctx.violation("R07g", f.file, f.short, c, f"{name} keeps escapes",
+                                  f"`{norm(c, 40)}` replaces sys.stdout process-wide with a wrapper that strips ANSI escapes whenever the "
+                                  f"stream is not a terminal (strip defaults to that). The Printer that triggered the call is already bound "
+                                  f"to the real stream, every Printer created later binds the wrapper: the same coloured diff printed "
+                                  f"twice in one process comes out with escapes the first time and without them afterwards")
             if guard:
                 ctx.proved("R07g", f.file, f.short, c, f"{name} once", f"`{name}()` runs only while the module flag `{guard}` is unset, and sets it")
             else:
